@@ -290,6 +290,11 @@ theorem C03_compose_realises (e : Expr) (htr : e.trainable = true)
     (scope : GraphM Trunk) (S : Scope) (hs : Spec True scope S) (hS : S.Indep) : Spec True (compose e scope) (denoteC e S) :=
   (realises e htr).1 scope S hs hS
 
+/-- … and expanded on its own (`Operator.expand() = compose(Origin())`, `Compound.expand`): what `flow.Composition`
+puts behind the source -/
+theorem C03_expand_realises (e : Expr) (htr : e.trainable = true) : Spec True (expand e) (denote e) :=
+  (realises e htr).2
+
 /-- for a stack-free expression the scope is expanded exactly once and need not be input-independent -/
 theorem C03_compose_realises_stackfree (e : Expr) (hsf : e.stackFree = true) (htr : e.trainable = true)
     (scope : GraphM Trunk) (S : Scope) (hs : Spec True scope S) : Spec True (compose e scope) (denoteC e S) :=
